@@ -748,6 +748,7 @@ func (p *PathConds) boolSummaryAny(g *ssa.Function) *boolSummary {
 		if !want {
 			lit = "-" + term
 		}
+		lit = normLit(lit) // `x != ""` and `len(x) > 0` are one atom
 		var out []conj
 		for _, c := range base {
 			if n, ok := conjAdd(c, lit); ok {
